@@ -1,11 +1,22 @@
-(* C01 - Exactly one active state; enter/exit strictly paired over the whole lifetime. Theorems only. SInv s = between API calls: registry.requested is INVALID, the machine is inactive (active = INVALID) or has exactly one active state < n, the outstanding request (if any) names a state, the plan is well formed (PIc); deliv w m a l = l are the events of ONE delivery of callback m to w while a is active: only callbacks of (w, m), each recipient (injected bases and the state itself, in C15 order) exactly once, every view reporting id_of w and isActive(k) = (k = a); change a a' l = the lifecycle events of one call: none | exit(a);enter(a') | reenter(a) | root enter;enter(a') | exit(a);root exit; life_shape a a' l = a change preceded by a quiet stretch (no enter/exit/reenter at all, every view shows a); life_chain a0 a l = the trace l is a concatenation of life_shapes from a0 to a; mon = the executable lifecycle monitor of Proofs/LifeMonitor.v (an automaton over the states' own enter/exit/reenter callbacks that also checks every view's isActive bits). *)
+(* C01 - Exactly one active state; enter/exit strictly paired over the whole lifetime. Theorems only. SInv s = between
+   API calls: registry.requested is INVALID, the machine is inactive (active = INVALID) or has exactly one active state
+   < n, the outstanding request (if any) names a state, the plan is well formed (PIc); deliv w m a l = l are the events
+   of ONE delivery of callback m to w while a is active: only callbacks of (w, m), each recipient (injected bases and
+   the state itself, in C15 order) exactly once, every view reporting id_of w and isActive(k) = (k = a); change a a' l
+   = the lifecycle events of one call: none | exit(a);enter(a') | reenter(a) | root enter;enter(a') | exit(a);root
+   exit; life_shape a a' l = a change preceded by a quiet stretch (no enter/exit/reenter at all, every view shows a);
+   life_chain a0 a l = the trace l is a concatenation of life_shapes from a0 to a; mon = the executable lifecycle
+   monitor of Proofs/LifeMonitor.v (an automaton over the states' own enter/exit/reenter callbacks that also checks
+   every view's isActive bits). *)
 From Coq Require Import List Arith Bool NArith.
 From FFSM2 Require Import Model.TaskList Model.BitArray Model.BitStream Model.Plan Model.Ancestors Model.Machine
   Proofs.BitArrayProofs Proofs.MachineFrame Proofs.MachinePlan Proofs.MachineLife Proofs.GuardProofs Proofs.CycleProofs Proofs.PlanStep
-  Proofs.SerialProofs Proofs.LogProofs Proofs.MachineTop Model.Multi Generated.InitFacts Proofs.ConstructProofs Proofs.LifeMonitor Proofs.ActivationRounds Proofs.IndexSafety.
+  Proofs.SerialProofs Proofs.LogProofs Proofs.MachineTop Model.Multi Generated.InitFacts Proofs.ConstructProofs Proofs.LifeMonitor Proofs.ActivationRounds Proofs.IndexSafety Proofs.FeatureProofs.
 Import ListNotations.
 
-(* every API history from construction, every behaviour of the callbacks, every n <= 255, capacity, limit, activation mode, head or no head, payload type: the state between calls is well formed and the whole trace is a chain of lifecycle shapes *)
+(* every API history from construction, every behaviour of the callbacks, every n <= 255, capacity, limit, activation
+   mode, head or no head, payload type: the state between calls is well formed and the whole trace is a chain of
+   lifecycle shapes *)
 Theorem C01_every_history :
   forall (P : Type) (cfg : config) (orc : oracle P),
          wf_cfg cfg ->
@@ -17,7 +28,8 @@ Theorem C01_every_history :
 Proof. exact (fun P cfg orc (Hcfg : wf_cfg cfg) (Hwf : wf_oracle P cfg orc) => run_life P cfg orc (PIc P cfg) (PIc_ok P cfg (proj1 (proj2 Hcfg))) Hwf Hcfg). Qed.
 Print Assumptions C01_every_history.
 
-(* the executable lifecycle monitor accepts the trace of every history and ends in the state matching activeStateId() (for configurations whose states define enter/exit/reenter, so that the lifecycle is observable) *)
+(* the executable lifecycle monitor accepts the trace of every history and ends in the state matching activeStateId()
+   (for configurations whose states define enter/exit/reenter, so that the lifecycle is observable) *)
 Theorem C01_monitor_accepts_every_history :
   forall (P : Type) (cfg : config) (orc : oracle P),
          wf_cfg cfg ->
@@ -48,7 +60,8 @@ Theorem C01_one_call :
 Proof. exact (fun P cfg orc (Hcfg : wf_cfg cfg) (Hwf : wf_oracle P cfg orc) => step_spec P cfg orc (PIc P cfg) (PIc_ok P cfg (proj1 (proj2 Hcfg))) Hwf Hcfg). Qed.
 Print Assumptions C01_one_call.
 
-(* construction activates an automatic machine (root enter, then the initial or redirected state) and leaves a manual one inactive *)
+(* construction activates an automatic machine (root enter, then the initial or redirected state) and leaves a manual
+   one inactive *)
 Theorem C01_construct :
   forall (P : Type) (cfg : config) (orc : oracle P),
          wf_cfg cfg ->
